@@ -176,6 +176,24 @@ def oracle(ctx, enc_inputs, dec_inputs, ints):
                 if len(b) != (bits + 7) // 8 or u2.decode_int(b) != n:
                     ctx.violation("fixed-width integer codec: wrong length or value", {"op": "encint", "n": n, "bits": bits, "out": b.hex()})
                     return
+    # where the integer codec is USED: every integer member of exported RSA JWKs is the minimal encoding and reads back to
+    # the same number - for keys whose d / dp / dq / qi is shorter than the usual width (corpus), odd moduli, generated keys
+    from harness import keycases as KC
+    from joserfc.jwk import RSAKey
+    rsa_keys = KC.short_rsa_keys() + [(f"rsa-{b}", RSAKey(k.raw_value, k.raw_value)) for b, k in KC.special_rsa_keys()[:3]] + [("generated", RSAKey.generate_key(1024))]
+    for label, rk in rsa_keys:
+        pn = rk.raw_value.private_numbers()
+        want = {"n": pn.public_numbers.n, "e": pn.public_numbers.e, "d": pn.d, "p": pn.p, "q": pn.q, "dp": pn.dmp1, "dq": pn.dmq1, "qi": pn.iqmp}
+        for form, d in (("private", rk.as_dict(private=True)), ("public", rk.as_dict(private=False))):
+            for m, val in want.items():
+                if m not in d:
+                    continue
+                raw = util.urlsafe_b64decode(d[m].encode())
+                ctx.count("rsa-member-minimal", (label, form, m), True, m)
+                if raw[:1] == b"\x00" or int.from_bytes(raw, "big") != val or util.int_to_base64(util.base64_to_int(d[m])) != d[m]:
+                    ctx.violation(f"exported RSA JWK member {m!r} is not the minimal big-endian encoding of its integer ({len(raw)} octets"
+                                  f"{', leading 0x00' if raw[:1] == bytes(1) else ''})", {"op": "rsa-export", "key": label, "member": m, "value": d[m]})
+                    return
     # outside the field: a negative integer is refused; an integer too large for the field is refused or encoded
     # losslessly (longer) - never silently reduced
     outside = [n for n in ints if n < 0][:300] + [-1, -5, -(2 ** 256), -(2 ** 521) + 3]
